@@ -263,6 +263,9 @@ func (c *Ctx) finish(m runMeta) int {
 		analysed["callgraph_nodes"] = len(c.P.cg.Nodes)
 		analysed["callgraph_edges"] = ne
 	}
+	if c.P.Flatten != nil && len(c.P.Flatten.NewFuncs) > 0 {
+		analysed["flatten"] = c.P.Flatten
+	}
 	for k, v := range c.Analysed {
 		analysed[k] = v
 	}
